@@ -11,7 +11,7 @@ import re
 
 from vcheck import Machinery
 
-ENUM_VALS = [0, 1, 10, 7, 55]       # 7 and 55 are not declared enum values
+ENUM_VALS = [0, 1, 10, 7, 55555]    # 7 and 55555 are not declared enum values (55555 is longer than every declared one)
 ENUM_NAMES = {0: 'Zero', 1: 'One', 10: 'Ten'}
 ENUM_NAMES_2 = {0: 'Nil', 1: 'Uno', 10: 'Deca'}       # a second enum type: other names for the same raw values
 
